@@ -35,6 +35,7 @@ PROPS = {
             'balanced; Err names a quantity that really exceeds its limit, with its value',
             'per-document enforcement: a document start restores the fresh state from ANY prior state',
             'finalize: the documented alias/anchor ratio rule, exactly, without overflow',
+            'BudgetEnforcer::new: a new enforcer has counted nothing (every counter zero, no anchor, no open container, no breach) and holds the limits and the policy it was given; every construction site of the event source hands it the options\' budget unchanged',
         ],
         not_covered=[
             'that saphyr-parser produces the event stream the YAML text denotes',
@@ -47,15 +48,20 @@ PROPS = {
                  'LiveEvents implements the Events cursor contract for both input kinds through the same pump (look-ahead served first, peek does not consume)',
                  'deserialize_str (borrowed targets) up to the point where the text is lent: a borrowed target is handed exactly what an owned one is handed (tags, !!binary decoding through the owned path, null forms, the no_schema quoting rule), or an error; the owned fallback after it (visit_string and the conversion of the serde message) is a shim',
                  'the decoder that buffered_input_from_reader_with_limit puts in front of ChunkedChars removes a leading byte order mark and sniffs the encoding (statement fragment against the assumed encoding_rs_io builder contract)',
-                 'from_slice_with_options / from_slice_multiple_with_options: on valid UTF-8 exactly the result of the string entry point on the decoded text with the same options, otherwise Error::InvalidUtf8Input (target type and Options opaque)'],
+                 'from_slice_with_options / from_slice_multiple_with_options: on valid UTF-8 exactly the result of the string entry point on the decoded text with the same options, otherwise Error::InvalidUtf8Input (target type and Options opaque)',
+                 'every one of the 13 places in src/lib.rs and src/de/with_deserializer.rs that build the event source (statement fragments, the feature-gated _valid / _validate entry points included): never in the stop-at-document-end mode (in which a following document is reported differently, and behind the leftover check not at all), the alias limits and the budget of the options passed on unchanged, budget policy AllContent for single-document and batch entry points and PerDocument for the document iterators; the struct literals of LiveEvents::from_str / from_reader copy their arguments and start with empty replay state; BudgetEnforcer::new starts from zero with the limits and policy given',
+                 'the Read wrapper the reader entry points put around the user\'s reader (unit ring: RingReader::read, drain_stash_into, read_ahead_at_most, get_recent) is transparent: the consumer receives exactly the next bytes of the source, read-ahead first, nothing lost or reordered even when the source fails half way through a read-ahead; at most MAX_READ_AHEAD bytes are held back'],
         not_covered=['equality of saphyr-parser StrInput / BufferedInput front ends; encoding_rs_io decoding itself; BOM stripping of the str / slice entry points; borrowed vs owned strings'],
-        assumptions=['ASSUMED contract of the external crate encoding_rs_io (contracts/reader.shim.rs, from its documentation): DecodeReaderBytesBuilder::new() has sniffing on, passthru and strip_bom off; build() yields a decoder that removes a leading UTF-8 BOM iff sniffing && (!utf8_passthru || strip_bom)'],
+        assumptions=['ASSUMED contract of the external crate encoding_rs_io (contracts/reader.shim.rs, from its documentation): DecodeReaderBytesBuilder::new() has sniffing on, passthru and strip_bom off; build() yields a decoder that removes a leading UTF-8 BOM iff sniffing && (!utf8_passthru || strip_bom)',
+                     'std::io::Read::read as documented: an error means no bytes were read (contracts/ring.shim.rs bytesrc_read_prefix); the three statements in front of the constructor literals (BOM stripping of the text, the character source) are not part of the literal fragments; that nothing between construction and the leftover check changes stop_at_doc_end follows from the frame clauses of the pump but is not re-stated at the entry points',
+                     'overflow: fewer than 2^64 bytes and lines are read through one RingReader (stated as preconditions history_shorter_than_2_64)'],
     ),
     'C01': dict(
         covered=['absence of arithmetic overflow, out-of-range indexing, unwrap-on-None and reachable unreachable!() '
                  'and termination of every loop, for every function under contract (Verus implicit obligations)'],
-        not_covered=['entry points as wholes; saphyr-parser; serde-generated visitors; stack exhaustion; allocation failure'],
-        assumptions=[],
+        not_covered=['entry points as wholes; saphyr-parser other than the one looping Input method extracted for F28; serde-generated visitors; stack exhaustion; allocation failure',
+                     'KNOWN FINDING F28: the reader entry points never return on input that ends inside a directive line (the dependency\'s default method Input::fetch_while_is_yaml_non_space loops for ever over the end-of-input padding of BufferedInput); its termination obligation fails, is listed in known_findings.txt and printed as KNOWN-FINDING'],
+        assumptions=['saphyr-parser BufferedInput as seen by the extracted method (contracts/reader.shim.rs PaddedChars): once the character iterator is exhausted look_ch answers NUL for ever'],
     ),
     'C06': dict(
         covered=[
@@ -131,6 +137,8 @@ PROPS = {
             'LiveEvents::next / peek: a stored reader error is reported as Error::IOError before any event (not even a buffered look-ahead) is handed out',
             'LiveEvents::finish: a stored reader error is reported at the end; otherwise a delayed budget breach is surfaced',
             'io_error: Ok exactly when the shared cell is empty',
+            'the single-document entry points (leftover-check fragments of from_str_with_options_impl and from_reader_with_options): a value is returned only after finish() found no stored reader error (after a successful finish the cell is empty)',
+            'RingReader::read / read_ahead_at_most / get_recent (the wrapper between the user\'s reader and the decoder): they fail exactly when the source failed (ghost count of errors the source returned), never swallowing one and never inventing one',
             'ReadIter::next (document iterator of read / read_with_options): no result of the event source that carries the deferred reader error is ever discarded before the iterator ends quietly or delivers a document (ghost-tracked); a finished iterator stays finished; it ends only by marking itself finished',
             'an error stored while pumping is never consumed by next/peek themselves: it stays in the cell for finish (or the next call) to report',
             'ChunkedChars::next: it signals end of input only when nothing is left, or after storing an error in the shared cell (reader error of ANY kind, EOF inside a code point, invalid lead byte / sequence, byte cap exceeded); total_bytes never exceeds the cap; at most 4 bytes are requested per character',
@@ -154,6 +162,8 @@ PROPS = {
             'sanitize_terminal_snippet_preserve_len: the resulting bytes contain no C0 control other than \\n/\\t, no DEL and no UTF-8 encoded C1 control, have the same length, and every byte that was not an offender (or the second byte of a C1 pair) is unchanged, for strings of any length',
             'is_terminal_snippet_clean(t) is true exactly when t is terminal-safe in that sense',
             'ring reader window (src/ring_reader.rs is_utf8_continuation, utf8_expected_len, trim_incomplete_utf8_tail, trim_to_utf8_boundaries_with_line): exactly the leading continuation bytes are dropped (offset advanced by their number, line number unchanged since a continuation byte is never a line feed), only an incomplete last code point is dropped at the end, what remains is a sub-window of the input that neither starts with a continuation byte nor stops inside a code point; total for every byte string',
+            'the recent-bytes window itself (unit ring): FixedRingBuffer push / pop / iterate against "the retained bytes, oldest first"; after any sequence of reads and read-aheads the window is the last RING_BUFFER_SIZE bytes read from the source, its first line number has advanced by exactly the lines that ended in front of it - a line ends at LF or at a CR not followed by LF, as the scanner and Location::line count them -, its offset by exactly the bytes that left it, and it ends where reading stopped; get_recent returns a piece of that window whose start line is the line of its first byte and whose offsets bracket it',
+            'crop_source_window splits lines at LF only in text without a lone CR (F29): has_lone_cr / lone_cr_to_lf are assumed there and checked on their real text by a bounded-only harness in every run (all strings up to 8 characters over a five-symbol alphabet) - bounded, not proved',
             'col_to_byte_offset_in_line: Some(i) iff 1 <= col <= chars+1 and i is exactly the byte offset of that character (unit crop)',
             'line_starts: exactly 0 and the offset after every line feed, in order, all on char boundaries',
             'crop_line_by_cols: the result is exactly the requested column window of the line, with an ellipsis on each clipped side, and the returned LineCrop matches (start byte, prefix bytes)',
@@ -161,7 +171,7 @@ PROPS = {
             'crop_source_window: every string slice is in range and on a char boundary, every index in bounds, no overflow; the vertical window holds the error line and at most two lines either side; on the error line nothing left of error column + radius is removed',
         ],
         not_covered=['UTF-8 validity of the sanitised bytes (the lossy fallback is therefore not proved dead)',
-                     'that the rebased span still points at the reported column (only its bounds are proved), Snippet::fmt_or_fallback, annotate-snippets rendering; reflected keys, formatter messages, miette; the ring buffer itself (RingReader::read / get_recent)'],
+                     'that the rebased span still points at the reported column (only its bounds are proved), Snippet::fmt_or_fallback, annotate-snippets rendering; reflected keys, formatter messages, miette; SharedRingReader (Rc<RefCell>) and the use of the snapshot in src/lib.rs attach_snippet'],
         assumptions=['String::into_bytes / from_utf8 shims (contracts/snippet.shim.rs)',
                      'str slicing / find / strip / char_indices / chars().count() shims (contracts/crop.shim.rs): slicing panics exactly when an end is not a char boundary or the range is inverted',
                      'a str has at most isize::MAX bytes (assumed allocation invariant); UTF-8 self-synchronisation (an ASCII byte of a valid encoding is a whole character) is PROVED from vstd\'s definition of encode_utf8 (lemma_ascii_byte_char)'],
